@@ -47,7 +47,10 @@ func Run(ctx *core.Ctx) {
 	ctx.SetRule("client connections of 1-5 exchanges: GET/HEAD/POST, client HTTP/1.0|1.1, Connection option, Accept-Encoding present or absent, against generated origin " +
 		"responses (status mix incl. 204/304, custom reasons, repeated fields, hop-by-hop and Connection-nominated fields, Content-Length/chunked/close-delimited bodies " +
 		"of sizes around 4 KiB/32 KiB, trailers, gzip, origin HTTP/1.0, head/chunk/CRLF boundaries split across origin writes), direct and MITM, with and without " +
-		"response-header rules; plus event-stream / chunked delivery cases where the origin stalls after each event; non-trivial = anything but a plain 200 with " +
+		"response-header rules; plus event-stream / chunked delivery cases where the origin stalls after each event; plus sequences of 2-4 streamed " +
+		"(event stream chunked / with Content-Length / close-delimited, chunked, close-delimited unknown length) and non-streamed (Content-Length, 204, HEAD) " +
+		"responses on ONE keep-alive connection in every order of kinds, the origin stalling after the head and after every piece (pieces ending in / " +
+		"starting with half a flush pattern, also across responses), client byte counts at each stall compared with Flush.Conn.replies; non-trivial = anything but a plain 200 with " +
 		"Content-Length; distinct = distinct (configuration, exchange)")
 	pool := &envPool{envs: map[envKey]*env{}, ctx: ctx}
 	defer pool.closeAll()
@@ -105,6 +108,33 @@ func Run(ctx *core.Ctx) {
 	close(sjobs)
 	wg.Wait()
 
+	// sequences of streamed / non-streamed responses on one keep-alive connection: every ordered pair of
+	// kinds, then random sequences of 2-4
+	seqjobs := make(chan *seqCase, 16)
+	for w := 0; w < 10; w++ {
+		wg.Add(1)
+		go func() {
+			defer wg.Done()
+			for sc := range seqjobs {
+				runSeq(ctx, sc)
+			}
+		}()
+	}
+	for i, kinds := range seqPairs() {
+		r := ctx.Rng.Sub()
+		sc := genSeqOf(r, kinds)
+		if i == 0 {
+			ctx.Sample(sc)
+		}
+		seqjobs <- sc
+	}
+	for i, nSeq := 0, ctx.N(20, 500); i < nSeq; i++ {
+		r := ctx.Rng.Sub()
+		seqjobs <- genSeq(r)
+	}
+	close(seqjobs)
+	wg.Wait()
+
 	// torn bodies
 	for _, f := range []string{"garbage-chunk", "corrupt-gzip", "short-cl"} {
 		for _, size := range []int{10, 3000, 40000}[:ctx.N(2, 3)] {
@@ -124,6 +154,11 @@ func replayWith(ctx *core.Ctx, pool *envPool, raw json.RawMessage) {
 		var sc streamCase
 		json.Unmarshal(raw, &sc)
 		runStream(ctx, &sc)
+		return
+	case "seq":
+		var sc seqCase
+		json.Unmarshal(raw, &sc)
+		runSeq(ctx, &sc)
 		return
 	case "torn":
 		var tc tornCase
